@@ -128,6 +128,33 @@ def analyze(kit):
         calls.append((entry, args))
         metas.append((kind, exp, meta))
 
+    solved_fns = {}
+
+    def impl_solved(cube):
+        """the implementation's own utils.is_solved on this cube (C17: the solved test accepts exactly 'every face uniform')"""
+        c = np.asarray(cube)
+        n_ = int(c.shape[-1])
+        if n_ not in solved_fns:
+            solved_fns[n_] = jax.jit(U.is_solved)
+        return bool(solved_fns[n_](jnp.asarray(c, jnp.int8)))
+
+    def reoriented_solved(n):
+        """whole-cube rotations of the solved cube reached by LEGAL moves (even sizes only: every layer along one axis turned the
+        same way): physically solved, every face uniform, but not the array make_solved_cube returns"""
+        out = []
+        if n % 2:
+            return out
+        solved_ = np.asarray(U.make_solved_cube(n))
+        for (fa, fb) in [(0, 5), (1, 3), (2, 4)]:
+            for amt in (0, 1, 2):       # cw / acw / half turn of the whole cube about this axis
+                opp = {0: 1, 1: 0, 2: 2}[amt]
+                c = solved_.copy()
+                for d in range(n // 2):
+                    c = rot_batch(n, c[None], [(fa * (n // 2) + d) * 3 + amt])[0]
+                    c = rot_batch(n, c[None], [(fb * (n // 2) + d) * 3 + opp])[0]
+                out.append(c)
+        return out
+
     # ------------------------------------------------------------------ rollouts, resets, constructed states
     for cfg in kit.configs():
         env = kit.env(cfg)
@@ -171,7 +198,7 @@ def analyze(kit):
                 call("rubiks_step_io", [n, T] + _flat(s.cube) + [int(s.step_count)] + a, "step", _exp_step(s2, ts2),
                      dict(cfg=cfg["label"], p=p, b=b, t=t, n=n, T=T, action=a, cube=_flat(s.cube), step_count=int(s.step_count), src="rollout"))
                 call("rubiks_check_io", [n, T] + _flat(s2.cube) + [int(s2.step_count)], "check",
-                     dict(np_solved=_np_solved(s2.cube), reward=float(ts2.reward), last=int(ts2.step_type) == 2),
+                     dict(np_solved=_np_solved(s2.cube), impl_solved=impl_solved(s2.cube), reward=float(ts2.reward), last=int(ts2.step_type) == 2),
                      dict(cfg=cfg["label"], p=p, b=b, t=t + 1, n=n, T=T, cube=_flat(s2.cube), step_count=int(s2.step_count)))
                 if not np.array_equal(np.asarray(s.key), np.asarray(s2.key)):
                     kit.fail(["C09"], "step changed state.key", dict(cfg=cfg["label"], op="key"), dict(b=b, t=t, seed=kit.seed))
@@ -180,13 +207,24 @@ def analyze(kit):
             for b in range(B):
                 s0 = envkit.R.slice_tree(st, b, 0)
                 call("rubiks_check_io", [n, T] + _flat(s0.cube) + [0], "check",
-                     dict(np_solved=_np_solved(s0.cube), reward=None, last=None),
+                     dict(np_solved=_np_solved(s0.cube), impl_solved=impl_solved(s0.cube), reward=None, last=None),
                      dict(cfg=cfg["label"], p=p, b=b, t=0, n=n, T=T, cube=_flat(s0.cube), step_count=0))
         # ---- constructed states: solved cube, one move from solved (all moves), counters at the limit, x EVERY action
         solved = np.asarray(U.make_solved_cube(n))
         cubes = [solved]
         one_away = rot_batch(n, np.repeat(solved[None], A, 0), np.arange(A))
         cubes += [one_away[i] for i in range(A)]
+        reo = reoriented_solved(n)
+        for c in reo:
+            res["C17"].evaluations += 1
+            res["C17"].count("reoriented-solved")
+            if not _np_solved(c) or np.array_equal(c, solved):
+                continue
+            cubes.append(c)
+            call("rubiks_check_io", [n, T] + _flat(c) + [0], "check", dict(np_solved=True, impl_solved=impl_solved(c), reward=None, last=None),
+                 dict(cfg=cfg["label"], p=-2, b=len(cubes), t=0, n=n, T=T, cube=_flat(c), step_count=0))
+        if reo:   # one move away from a re-oriented solved cube: the step that solves it must be rewarded and LAST
+            cubes += [rot_batch(n, reo[1][None], [a_])[0] for a_ in range(0, A, max(1, A // 6))]
         sel = visited[:: max(1, len(visited) // 6)][:6] if kit.tier == "quick" else visited[:16]
         base = [(c, cnt, "constructed") for c in cubes for cnt in sorted({0, max(0, T - 2), T - 1})]
         base += [(np.asarray(s.cube), int(s.step_count), "visited") for s in sel]
@@ -206,6 +244,10 @@ def analyze(kit):
             call("rubiks_step_io", [n, T] + _flat(S_c[i]) + [S_k[i]] + list(S_a[i]), "step", _exp_step(s2, ts2),
                  dict(cfg=cfg["label"], n=n, T=T, action=list(S_a[i]), cube=_flat(S_c[i]), step_count=S_k[i], src=S_m[i], b=-1, t=i, p=-1))
             res["C09"].count("every-action:" + S_m[i])
+            if S_m[i] != "out-of-spec":
+                call("rubiks_check_io", [n, T] + _flat(s2.cube) + [int(s2.step_count)], "check",
+                     dict(np_solved=_np_solved(s2.cube), impl_solved=impl_solved(s2.cube), reward=float(ts2.reward), last=int(ts2.step_type) == 2),
+                     dict(cfg=cfg["label"], p=-1, b=-1, t=i, n=n, T=T, cube=_flat(s2.cube), step_count=int(s2.step_count)))
             # C11 directly on the boundary: LAST <=> solved or step_count + 1 >= T
             want_last = (S_k[i] + 1 >= T) or _np_solved(s2.cube)
             res["C11"].evaluations += 1
@@ -299,10 +341,13 @@ def analyze(kit):
                          dict(cfg=m["cfg"], op="multiset"), dict(m, seed=kit.seed))
             if not (bool(solved_decl) == bool(solved_impl_model) == exp["np_solved"]):
                 kit.fail(["C17", "C08"], "solved test differs from 'every face uniform'", dict(cfg=m["cfg"], op="solved-exact"), dict(m, got=got, seed=kit.seed))
+            if "impl_solved" in exp and exp["impl_solved"] != bool(solved_decl):
+                kit.fail(["C17"], "the implementation's is_solved differs from 'every face uniform' (verified checker) on this cube",
+                         dict(cfg=m["cfg"], op="solved-exact-impl"), dict(m, impl_is_solved=exp["impl_solved"], every_face_uniform=bool(solved_decl), seed=kit.seed))
             if exp["reward"] is not None:
                 res["C08"].count("reward:%d" % int(exp["reward"]))
                 if (exp["reward"] == 1.0) != bool(solved_decl) or exp["reward"] not in (0.0, 1.0) or (bool(solved_decl) and not exp["last"]):
-                    kit.fail(["C08", "C09"], "reward is not 1 exactly when the cube is solved / solved step is not LAST",
+                    kit.fail(["C08", "C09", "C17"], "reward is not 1 exactly when the cube is solved / solved step is not LAST",
                              dict(cfg=m["cfg"], op="reward-solved"), dict(m, reward=exp["reward"], seed=kit.seed))
         elif kind == "solution":
             sol_jobs.append((m, got))
